@@ -34,10 +34,13 @@ type Step struct {
 	Target  string `json:"target,omitempty"` // setage/trimat: index | data; plant: which foreign file
 	Lookup  string `json:"lookup,omitempty"` // touch: get | getbytes | getfile
 	Base    int64  `json:"base,omitempty"`   // trimat / trimrec: threshold in seconds the jitter is relative to
+	Errno   string `json:"errno,omitempty"`  // trim / trimat / trimrec: the Nth removal of this Trim fails with this error
+	Nth     int    `json:"nth,omitempty"`
 }
 
 type Plan struct {
-	Start int64  `json:"start,omitempty"` // initial clock offset in seconds
+	Start   int64  `json:"start,omitempty"`   // initial clock offset in seconds
+	SameDir bool   `json:"samedir,omitempty"` // all action ids share their first byte (one cache subdirectory)
 	Sizes []int  `json:"sizes"`
 	Steps []Step `json:"steps"`
 }
@@ -54,7 +57,7 @@ var advances = []int64{1, 59 * 60, 61 * 60, day - 60, day, day + 60, 4*day + 23*
 
 var recordOffsets = []int64{0, 1, hour, day - 60, day - 1, day, day + 1, day + 60, 30 * day, -1, -(hour - 1), -hour, -(hour + 1), -day}
 
-var foreignNames = []string{"README", "fuzz/x", "00/note.txt", "00/abc-x", "7f/name-ab", "ab/0123-a.tmp", "trimx.txt", "fuzz/seed-d", "othertool/index-a", "fuzz/corpus/x-a"}
+var foreignNames = []string{"10/10-d/keep", "10/0f-a/keep", "README", "fuzz/x", "00/note.txt", "00/abc-x", "7f/name-ab", "ab/0123-a.tmp", "trimx.txt", "fuzz/seed-d", "othertool/index-a", "fuzz/corpus/x-a"}
 
 // genDur draws a duration in seconds: short gaps (decide whether a use
 // refreshes the mtime), values around the three thresholds of the statement with
@@ -96,8 +99,26 @@ func genPlan(t *rapid.T, tier string) any {
 	if tier == "thorough" {
 		max = 30
 	}
+	p.SameDir = rapid.Bool().Draw(t, "samedir")
 	jumps := rapid.IntRange(0, 3).Draw(t, "jumps") == 0
 	n := rapid.IntRange(2, max).Draw(t, "nsteps")
+	if rapid.IntRange(0, 2).Draw(t, "template") == 0 {
+		// scenario: store an entry, look it up twice (each time in one of the three ways, after a gap
+		// on either side of the one-hour refresh granularity), then trim near a threshold counted
+		// from the last of those uses
+		id := rapid.IntRange(0, nIDs-1).Draw(t, "tid")
+		c := rapid.IntRange(0, nc-1).Draw(t, "tcontent")
+		p.Steps = append(p.Steps, Step{Kind: "put", ID: id, Content: c})
+		for i := 0; i < 2; i++ {
+			p.Steps = append(p.Steps, Step{Kind: "touch", ID: id,
+				Secs:   rapid.SampledFrom([]int64{60, 30 * 60, 59 * 60, 61 * 60, 90 * 60, 2 * hour}).Draw(t, "tgap"),
+				Lookup: rapid.SampledFrom([]string{"get", "getbytes", "getfile"}).Draw(t, "tlookup")})
+		}
+		p.Steps = append(p.Steps, Step{Kind: "trimat", ID: id, Content: c,
+			Target: rapid.SampledFrom([]string{"index", "data"}).Draw(t, "ttarget"),
+			Base:   rapid.SampledFrom([]int64{5 * day, 5*day + hour}).Draw(t, "tbase"),
+			Secs:   rapid.SampledFrom([]int64{-3600, -61, -60, -1, 0, 1, 60, 61, 3600}).Draw(t, "tjitter")})
+	}
 	for i := 0; i < n; i++ {
 		s := Step{ID: rapid.IntRange(0, nIDs-1).Draw(t, "id")}
 		switch k := rapid.IntRange(0, 26).Draw(t, "kind"); {
@@ -165,6 +186,11 @@ func genPlan(t *rapid.T, tier string) any {
 				s.Secs = genDur(t, "adv2")
 			}
 		}
+		if (s.Kind == "trim" || s.Kind == "trimat" || s.Kind == "trimrec") && rapid.IntRange(0, 3).Draw(t, "rmfault") == 0 {
+			// one removal of this Trim fails (a file the process may not unlink)
+			s.Errno = rapid.SampledFrom([]string{"EPERM", "EBUSY", "EIO", "EACCES"}).Draw(t, "errno")
+			s.Nth = rapid.IntRange(0, 4).Draw(t, "nth")
+		}
 		p.Steps = append(p.Steps, s)
 	}
 	return p
@@ -226,7 +252,7 @@ func run(t *testing.T, plan any, keep bool) *simcheck.Outcome {
 	// returned and by the steps that rewrite trim.txt), not whatever the file holds right now
 	modelRec := ""
 	modelRecOK := false
-	crashes := 0
+	crashes, rmFaults := 0, 0
 	trimsDue, trimsNotDue, removed, keptNearBoundary := 0, 0, 0, 0
 	jumped := false
 
@@ -240,6 +266,9 @@ func run(t *testing.T, plan any, keep bool) *simcheck.Outcome {
 		for si, st := range p.Steps {
 			now := simtime.Now()
 			id := cachekit.ActionID(st.ID)
+			if p.SameDir {
+				id[0] = 0x10
+			}
 			where := fmt.Sprintf("step %d %s", si, st.Kind)
 			advanceTo := func(target time.Time) {
 				if target.After(now) {
@@ -338,6 +367,10 @@ func run(t *testing.T, plan any, keep bool) *simcheck.Outcome {
 				body := "foreign " + st.Target
 				os.WriteFile(path, []byte(body), 0o666)
 				simos.SetMtime(path, now.Add(-time.Duration(st.Secs)*time.Second))
+				if d := filepath.Dir(path); strings.HasSuffix(d, "-a") || strings.HasSuffix(d, "-d") {
+					// a foreign non-empty directory with an entry-like name, as old as its file
+					simos.SetMtime(d, now.Add(-time.Duration(st.Secs)*time.Second))
+				}
 				foreign[st.Target] = body
 			case "setage":
 				var path string
@@ -375,6 +408,7 @@ func run(t *testing.T, plan any, keep bool) *simcheck.Outcome {
 				}
 				before := snapshot(dir)
 				crashed := false
+				unremovable := map[string]bool{} // entry files whose removal was made to fail during this Trim
 				if st.Kind == "trimcrash" {
 					// the process running Trim stops before its k-th file operation
 					crashes++
@@ -397,12 +431,24 @@ func run(t *testing.T, plan any, keep bool) *simcheck.Outcome {
 					})
 					simrt.Block("join", func() bool { return done })
 					simos.Disarm()
+				} else if st.Errno != "" {
+					nf := len(simos.FiredAt())
+					simos.Arm([]simos.Fault{{Proc: -1, Op: "remove", Nth: st.Nth, Action: "error", Errno: st.Errno}})
+					err := c.Trim()
+					simos.Disarm()
+					for _, f := range simos.FiredAt()[nf:] {
+						unremovable[rel(strings.TrimPrefix(f, "remove "))] = true
+						rmFaults++
+					}
+					if err != nil {
+						state = "failed" // a Trim that reports failure claims nothing beyond the keep and foreign-file clauses
+					}
 				} else if err := c.Trim(); err != nil {
 					out.Violate("trim-error", "%s: Trim failed in a fault-free run: %v", where, err)
 					return
 				}
 				after := snapshot(dir)
-				if crashed {
+				if crashed && state != "failed" {
 					state = "crashed" // only the keep and foreign-file clauses apply to an interrupted trim
 				}
 				// (b) foreign files untouched
@@ -450,7 +496,7 @@ func run(t *testing.T, plan any, keep bool) *simcheck.Outcome {
 							out.Violate("trim-not-due", "%s: a trim completed %s ago (< 24h) but entry file %s was removed", where, time.Duration(now.Unix()-mustInt(recBytes))*time.Second, k)
 						}
 					case "due":
-						if fm.lastUse.Before(dropLimit) && still {
+						if fm.lastUse.Before(dropLimit) && still && !unremovable[k] {
 							out.Violate("trim-kept-stale", "%s at %s: trim was due, entry file %s unused since %s (%s, more than five days and an hour) is still there",
 								where, now.UTC().Format(time.RFC3339), k, fm.lastUse.UTC().Format(time.RFC3339), now.Sub(fm.lastUse))
 						}
@@ -491,7 +537,7 @@ func run(t *testing.T, plan any, keep bool) *simcheck.Outcome {
 				switch state {
 				case "due":
 					modelRec, modelRecOK = strconv.FormatInt(now.Unix(), 10), true // this trim completed
-				case "future":
+				case "future", "failed":
 					// the statement is silent on what happened: follow the file
 					if b, err := os.ReadFile(recPath); err == nil {
 						if _, perr := strconv.ParseInt(string(b), 10, 64); perr == nil {
@@ -520,6 +566,7 @@ func run(t *testing.T, plan any, keep bool) *simcheck.Outcome {
 		out.SimSeconds = 0
 	}
 	out.Count("fired_trim_process_halted", int64(rep.Halts))
+	out.Count("fired_remove_failed_during_trim", int64(rmFaults))
 	out.Count("trims_due", int64(trimsDue))
 	out.Count("trims_not_due", int64(trimsNotDue))
 	out.Count("entry_files_removed_by_trim", int64(removed))
@@ -547,7 +594,7 @@ var harness = &simcheck.Harness{
 	Level:    "exploration",
 	Rule: "rapid draws a history of up to 16 (quick) / 30 (thorough) steps: Put, Get, GetBytes, GetFile, OutputFile, clock advances drawn mostly from boundary values " +
 		"(1s ... 24h+-1m, 5d+-1m, 5d1h+-1s/1m, 30d), Trim, trim-record rewrites (valid with recent/old/future offsets, garbage, empty, missing), foreign files, " +
-		"directly aged entry files, and (a quarter of the plans) backward clock jumps; plus macro steps (look an entry up after a gap of under two hours; move the clock to an entry file's last use + 5d or 5d1h +- jitter and Trim; move it to the trim record + 24h +- jitter and Trim; a Trim whose process halts before its k-th file operation); non-trivial = the history contains a Trim; " +
+		"directly aged entry files, and (a quarter of the plans) backward clock jumps; plus macro steps (look an entry up after a gap of under two hours; move the clock to an entry file's last use + 5d or 5d1h +- jitter and Trim; move it to the trim record + 24h +- jitter and Trim; a Trim whose process halts before its k-th file operation; a Trim one of whose removals fails with EPERM/EBUSY/EIO/EACCES - that file may stay, every other stale entry must still go), half the plans with all action ids in one cache subdirectory, a third starting with a store / two lookups / trim-at-threshold scenario, foreign non-empty directories with entry-like names inside an entry subdirectory; non-trivial = the history contains a Trim; " +
 		"distinct by the hash of the intercepted file-operation sequence",
 	Gen:     genPlan,
 	NewPlan: func() any { return &Plan{} },
